@@ -401,36 +401,77 @@ func RuleDCheckFirst(c *core.Ctx) {
 	}
 	pls := pipelines(c)
 	n := 0
+	loads := map[*ssa.Function]*ssa.Call{}
 	for _, fn := range p.SrcFuncs() {
-		var load *ssa.Call
 		core.EachInstr(fn, func(ins ssa.Instruction) {
 			if call, ok := ins.(*ssa.Call); ok && call.Call.StaticCallee() == fromPath {
-				load = call
+				loads[fn] = call
 			}
 		})
+	}
+	// per command that loads a journal (in its run function or in a helper of the
+	// command packages): the Process calls of the command's own code
+	type unit struct {
+		name string
+		load *ssa.Call
+		fns  map[*ssa.Function]bool
+	}
+	var units []unit
+	seenFn := map[*ssa.Function]bool{}
+	for _, cmd := range core.Commands(c) {
+		if cmd.Run == nil {
+			continue
+		}
+		reach := p.ReachLexical(cmd.Run)
+		var load *ssa.Call
+		fns := map[*ssa.Function]bool{}
+		for fn := range reach {
+			if !strings.HasPrefix(core.PkgPathOf(fn), core.Module+"/cmd") {
+				continue
+			}
+			fns[fn] = true
+			if l := loads[fn]; l != nil {
+				load = l
+			}
+		}
 		if load == nil {
 			continue
 		}
+		for fn := range fns {
+			seenFn[fn] = true
+		}
+		units = append(units, unit{core.FuncName(cmd.Run), load, fns})
+	}
+	// functions that load a journal without being part of a command (library helpers, tests excluded)
+	for fn, l := range loads {
+		if !seenFn[fn] {
+			units = append(units, unit{core.FuncName(fn), l, map[*ssa.Function]bool{fn: true}})
+		}
+	}
+	sort.Slice(units, func(i, j int) bool { return units[i].name < units[j].name })
+	for _, u := range units {
+		load := u.load
 		n++
-		key := core.FuncName(fn) + ":checker in the first Process call"
+		key := u.name + ":checker in the first Process call"
+		fnName := u.name
 		var mine []*pipeline
 		for _, pl := range pls {
-			if pl.fn == fn {
+			if u.fns[pl.fn] {
 				mine = append(mine, pl)
 			}
 		}
 		if len(mine) == 0 {
-			c.Ob(rule, key, load.Pos(), core.FuncName(fn), core.Violated, "the command loads a journal but never processes it with the checker")
+			c.Ob(rule, key, load.Pos(), fnName, core.Violated, "the command loads a journal but never processes it with the checker")
 			continue
 		}
 		first := mine[0]
 		for _, pl := range mine[1:] {
-			if core.Dominates(pl.call, first.call) {
+			if pl.fn == first.fn && core.Dominates(pl.call, first.call) {
 				first = pl
 			}
 		}
 		if !first.resolved {
-			c.Ob(rule, key, first.call.Pos(), core.FuncName(fn), core.Undecided, "processor list not resolved: "+first.why)
+			c.Ob(rule, key, first.call.Pos(), fnName, core.Undecided, "processor list not resolved: "+first.why)
 			continue
 		}
 		idx := -1
@@ -441,7 +482,7 @@ func RuleDCheckFirst(c *core.Ctx) {
 			}
 		}
 		if idx < 0 {
-			c.Ob(rule, key, first.call.Pos(), core.FuncName(fn), core.Violated, "the first Journal.Process call of this command does not contain the checker: an ill-formed journal (booking on a closed account, failed assertion) is reported on as if it were valid")
+			c.Ob(rule, key, first.call.Pos(), fnName, core.Violated, "the first Journal.Process call of this command does not contain the checker: an ill-formed journal (booking on a closed account, failed assertion) is reported on as if it were valid")
 			continue
 		}
 		bad := ""
@@ -455,10 +496,10 @@ func RuleDCheckFirst(c *core.Ctx) {
 			}
 		}
 		if bad != "" {
-			c.Ob(rule, key, first.call.Pos(), core.FuncName(fn), core.Violated, bad)
+			c.Ob(rule, key, first.call.Pos(), fnName, core.Violated, bad)
 			continue
 		}
-		c.Ob(rule, key, first.call.Pos(), core.FuncName(fn), core.Discharged, fmt.Sprintf("checker is stage %d of the first Process call; only day/price callbacks precede it", idx+1))
+		c.Ob(rule, key, first.call.Pos(), fnName, core.Discharged, fmt.Sprintf("checker is stage %d of the first Process call; only day/price callbacks precede it", idx+1))
 	}
 	c.Floor(rule, 6)
 }
